@@ -52,6 +52,7 @@ def parseOuts (s : String) : Option (List Out) :=
     | _ => none
 
 def showPVal : PVal → String
+  | .list s => "l" ++ hexOfStr s
   | .str s => "s" ++ hexOfStr s
   | .err s => "e" ++ hexOfStr s
   | .nil => "n"
@@ -60,17 +61,20 @@ def parsePVal (s : String) : Option PVal :=
   if s = "n" then some .nil
   else if pfx "s" s then (strOfHex (dropN s 1)).map .str
   else if pfx "e" s then (strOfHex (dropN s 1)).map .err
+  else if pfx "l" s then (strOfHex (dropN s 1)).map .list
   else none
 
 def showErr : Err → String
   | .base t => "b" ++ hexOfStr t
+  | .ubase t => "u" ++ hexOfStr t
   | .pkgWrap m e => "p" ++ hexOfStr m ++ ">" ++ showErr e
   | .fmtWrap m e => "f" ++ hexOfStr m ++ ">" ++ showErr e
   | .recovered v => "recovered(" ++ showPVal v ++ ",1)"
 
 def parseErrLayers : List String → Option Err
   | [] => none
-  | [l] => if pfx "b" l then (strOfHex (dropN l 1)).map .base else none
+  | [l] => if pfx "b" l then (strOfHex (dropN l 1)).map .base
+           else if pfx "u" l then (strOfHex (dropN l 1)).map .ubase else none
   | l :: rest => do
     let inner ← parseErrLayers rest
     let m ← strOfHex (dropN l 1)
@@ -132,20 +136,28 @@ def parseMws (s : String) : Option (List Mw) :=
 structure MsgSpec where
   deadline : Bool
   done : Bool
+  far : Bool                -- the caller's deadline lies beyond the horizon of the Timeouts
+  acked : Bool              -- settled before it enters the chain
+  nacked : Bool
   cid : Option String
   delay : Delay
   hcid : Option String      -- the handler overwrites the incoming correlation id with this value
 
 def parseMsg (s : String) : Option MsgSpec :=
   match splitC s '/' with
-  | [c, cid, d, hc] => do
-    let (dl, dn) ← (match c with
-      | "live" => some (false, false) | "cancelled" => some (false, true) | "deadline" => some (true, false)
+  | [c0, cid, d, hc] => do
+    -- <ctx> or <ctx>!a (acked before) or <ctx>!k (nacked before)
+    let (c, ak, nk) ← (match c0.splitOn "!" with
+      | [c] => some (c, false, false) | [c, "a"] => some (c, true, false) | [c, "k"] => some (c, false, true)
+      | _ => none)
+    let (dl, dn, far) ← (match c with
+      | "live" => some (false, false, false) | "cancelled" => some (false, true, false)
+      | "deadline" => some (true, false, false) | "far" => some (true, false, true)
       | _ => none)
     let cid ← (if cid = "n" then some none else (strOfHex cid).map some)
     let d ← parseDelay d
     let hc ← (if hc = "n" then some none else (strOfHex hc).map some)
-    pure ⟨dl, dn, cid, d, hc⟩
+    pure ⟨dl, dn, far, ak, nk, cid, d, hc⟩
   | _ => none
 
 def b01 (b : Bool) : String := if b then "1" else "0"
@@ -154,14 +166,19 @@ def inMeta (m : MsgSpec) : Meta :=
   (match m.cid with | none => [] | some c => [(cidKey, c)]) ++ [("in_key", "in_val")]
 
 def initSt (m : MsgSpec) (script : List Res) : St :=
-  { ctx := ⟨0, m.deadline, m.done⟩, md := inMeta m, delay := m.delay, until_ := false, acked := false,
-    ticks := 0, script := script, log := [], hcid := m.hcid }
+  { ctx := ⟨0, m.deadline, m.done, m.far⟩, md := inMeta m, delay := m.delay, until_ := false, acked := m.acked,
+    ticks := 0, script := script, log := [], hcid := m.hcid, nacked := m.nacked }
+
+/-- deadline as the handler classifies it: 0 none, 1 within the Timeouts' horizon, 2 beyond it -/
+def dlDigit (deadline far : Bool) : String := if !deadline then "0" else if far then "2" else "1"
+/-- settlement: 0 none, 1 acked, 2 nacked -/
+def settleDigit (acked nacked : Bool) : String := if acked then "1" else if nacked then "2" else "0"
 
 def showCall (c : CallObs) : String :=
-  b01 c.deadline ++ b01 c.done ++ b01 c.acked ++ "/" ++ showDelay c.delay
+  dlDigit c.deadline c.far ++ b01 c.done ++ settleDigit c.acked c.nacked ++ "/" ++ showDelay c.delay
 
 def showAfter (st0 st : St) : String :=
-  b01 (st.ctx == st0.ctx) ++ b01 st.ctx.deadline ++ b01 st.ctx.done ++ "/" ++ b01 st.acked ++ "/" ++
+  b01 (st.ctx == st0.ctx) ++ dlDigit st.ctx.deadline st.ctx.far ++ b01 st.ctx.done ++ "/" ++ settleDigit st.acked st.nacked ++ "/" ++
     showDelay st.delay ++ "/" ++ b01 st.until_ ++ "/" ++ showMeta st.md
 
 /-! ### M: the model -/
@@ -178,7 +195,7 @@ def parseSeq (s : String) : Option (List Bool) :=
 
 /-- the DelayOnError middleware itself, called repeatedly on one message -/
 def modelDelay (c : DelayCfg) (pre : Delay) (seq : List Bool) : String :=
-  let st0 : St := { (initSt ⟨false, false, none, pre, none⟩ []) with md := [] }
+  let st0 : St := { (initSt ⟨false, false, false, false, false, none, pre, none⟩ []) with md := [] }
   let rec go (st : St) : List Bool → List String
     | [] => []
     | f :: rest =>
@@ -194,21 +211,23 @@ def modelDelay (c : DelayCfg) (pre : Delay) (seq : List Bool) : String :=
 structure Obs where
   res : String                 -- canonical result, compared as text with the expected canonical result
   isPanic : Bool
-  calls : List (Bool × Bool × Bool × String)    -- deadline, done, acked, delay
+  calls : List (Nat × Bool × Nat × String)    -- deadline class, done, settlement class, delay
   same : Bool
-  dl : Bool
+  dl : Nat
   done : Bool
-  acked : Bool
+  acked : Nat
   delay : Delay
   until_ : String
   md : String
 
 def bit (c : Char) : Option Bool := if c = '1' then some true else if c = '0' then some false else none
 
-def parseCallObs (s : String) : Option (Bool × Bool × Bool × String) :=
+def digit3 (c : Char) : Option Nat := if c = '0' then some 0 else if c = '1' then some 1 else if c = '2' then some 2 else none
+
+def parseCallObs (s : String) : Option (Nat × Bool × Nat × String) :=
   match splitC s '/' with
   | [f, d] => match f.toList with
-    | [a, b, c] => do pure ((← bit a), (← bit b), (← bit c), d)
+    | [a, b, c] => do pure ((← digit3 a), (← bit b), (← digit3 c), d)
     | _ => none
   | _ => none
 
@@ -222,13 +241,14 @@ def parseObs (s : String) : Option Obs :=
     | [f, ack, dly, unt, md] =>
       match f.toList, ack.toList with
       | [a, b, c], [k] => do
-        pure ⟨res, pfx "panic/" res, calls, (← bit a), (← bit b), (← bit c), (← bit k), (← parseDelay dly), unt, md⟩
+        pure ⟨res, pfx "panic/" res, calls, (← bit a), (← digit3 b), (← bit c), (← digit3 k), (← parseDelay dly), unt, md⟩
       | _, _ => none
     | _ => none
   | _ => none
 
 def fullTxt : Err → Option String
   | .base t => some t
+  | .ubase t => some t
   | .pkgWrap m e => (fullTxt e).map (fun t => m ++ ": " ++ t)
   | .fmtWrap m e => (fullTxt e).map (fun t => m ++ ": " ++ t)
   | .recovered _ => none
@@ -237,6 +257,7 @@ def fullTxt : Err → Option String
 def causeTxt : Err → Option String
   | .pkgWrap _ e => causeTxt e
   | .base t => some t
+  | .ubase t => some t
   | .fmtWrap m e => (fullTxt e).map (fun t => m ++ ": " ++ t)
   | .recovered _ => none
 
@@ -347,17 +368,21 @@ def monitorStack (mws : List Mw) (m : MsgSpec) (script : List Res) (o : Obs) : S
   if (showRes expected).endsWith ",1)" && (pfx "ret/" o.res) && o.res.endsWith "/none" then
     bad := bad ++ ["recoverer_panic_becomes_error"]
   -- composition with Retry: the attempt count is Retry's own
-  if o.calls.length != n then bad := bad ++ ["retry_attempt_count"]
+  if o.calls.length != n then bad := bad ++ [if ry.isSome then "retry_attempt_count" else "handler_called_exactly_once"]
   -- outputs and error pass unchanged except for the documented effects
   if o.res != showRes expected && o.res != showRes expectedAlt then bad := bad ++ ["transparent_result"]
   -- a deadline is visible during the call exactly when a Timeout is in the stack (or the caller set one)
+  -- settlement seen by the handler and left afterwards: acked if it was, or if an InstantAck is in the chain and no Nack was
+  -- sent before (Ack is then a no-op); a message nacked before stays nacked – and still reaches the handler
+  let settleAfter : Nat := if m.acked then 1 else if m.nacked then 2 else if hasMw mws .instantAck then 1 else 0
   for c in o.calls do
-    if c.1 != (m.deadline || hasT mws) then bad := bad ++ ["timeout_deadline_visible"]
+    -- under a Timeout the handler sees a deadline within its horizon, even when the caller had set a later one
+    if c.1 != (if hasT mws then 1 else if !m.deadline then 0 else if m.far then 2 else 1) then bad := bad ++ ["timeout_deadline_visible"]
     if c.2.1 != (m.done || hasT0 mws) then bad := bad ++ ["context_done_during_call"]
-    if c.2.2.1 != hasMw mws .instantAck then bad := bad ++ ["instant_ack_before_call"]
+    if c.2.2.1 != settleAfter then bad := bad ++ ["instant_ack_before_call"]
   -- the effect ends with the call
-  if !o.same || o.dl != m.deadline || o.done != m.done then bad := bad ++ ["context_restored"]
-  if o.acked != hasMw mws .instantAck then bad := bad ++ ["ack_only_by_instant_ack"]
+  if !o.same || o.dl != (if !m.deadline then 0 else if m.far then 2 else 1) || o.done != m.done then bad := bad ++ ["context_restored"]
+  if o.acked != settleAfter then bad := bad ++ ["ack_only_by_instant_ack"]
   if o.md != showMeta (inMetaAfter m) then bad := bad ++ ["message_metadata_untouched"]
   -- delay metadata
   let ds := mws.filterMap fun mw => match mw with | .delayOnError c => some c | _ => none
